@@ -455,11 +455,11 @@ Section Steps.
     wf_res r ->
     (do org <- org_id cs r;
      if should_skip skip org then Ok r else affix_steps cs affix add newv org name_fs r) = Ok r' ->
-    wf_res r' /\ grows r r'.
+    wf_res r' /\ grows r r' /\ (get_name (r_node r') = get_name (r_node r) \/ get_name (r_node r') = newv (get_name (r_node r))).
   Proof.
     intros Hadd0 Hadd Haddn Hgood Hid Hwf H.
     destruct (org_id cs r) as [org| | |]; cbn [bind] in H; try discriminate.
-    destruct (should_skip skip org); [inv H; split; [assumption|apply grows_refl]|].
+    destruct (should_skip skip org); [inv H; split; [assumption|split; [apply grows_refl|left; reflexivity]]|].
     cbn [affix_steps name_fs] in H.
     destruct (affix_step cs affix add newv org r (mkFs "" "" "" "metadata/name" false))
       as [r1| | |] eqn:Hs; cbn [bind] in H; try discriminate. inv H.
@@ -477,7 +477,7 @@ Section Steps.
       destruct (doc_name_update newv _ _ Hw Hg Hf) as (W & N1 & N2 & N3 & N4).
       rewrite (Hid eq_refl) in N1.
       destruct (update_same_id cs r n' (conj Hh Hw) W N1 N4 N2 N3) as [Wr Hr].
-      split; [exact Wr|]. split; [left; exact Hr|]. split; assumption.
+      split; [exact Wr|]. split; [split; [left; exact Hr|split; assumption]|]. left. exact N1.
     - destruct (Hadd r Hwf) as [Hwa Hha].
       destruct (fs_apply _ _ _ _ (r_node (store_previous_id cs (add affix r)))) as [n'| | |] eqn:Hf;
         cbn [bind] in Hs; try discriminate. inv Hs.
@@ -491,12 +491,13 @@ Section Steps.
       pose proof N2 as N2'. pose proof N3 as N3'.
       rewrite <- (Haddn r) in N2, N3.
       destruct (store_then_update cs (add affix r) n' Hwa W N2 N3) as [Wr Hr].
-      split; [exact Wr|]. split; [right; eexists; rewrite <- Hha; exact Hr|]. split; assumption.
+      split; [exact Wr|]. split; [split; [right; eexists; rewrite <- Hha; exact Hr|split; assumption]|]. right. exact N1.
   Qed.
 
   Lemma prefix_one_hist p r r' :
     no_char ","%char p = true -> wf_res r ->
-    prefix_one cs prefix_fs prefix_skip p r = Ok r' -> wf_res r' /\ grows r r'.
+    prefix_one cs prefix_fs prefix_skip p r = Ok r' ->
+    wf_res r' /\ grows r r' /\ (get_name (r_node r') = get_name (r_node r) \/ get_name (r_node r') = p ++ get_name (r_node r)).
   Proof.
     intros Hp Hwf H. unfold prefix_one in H. rewrite prefix_table in H.
     apply (affix_hist p add_name_prefix (fun v => p ++ v) prefix_skip r r').
@@ -514,7 +515,8 @@ Section Steps.
 
   Lemma suffix_one_hist s r r' :
     no_char ","%char s = true -> wf_res r ->
-    suffix_one cs suffix_fs suffix_skip s r = Ok r' -> wf_res r' /\ grows r r'.
+    suffix_one cs suffix_fs suffix_skip s r = Ok r' ->
+    wf_res r' /\ grows r r' /\ (get_name (r_node r') = get_name (r_node r) \/ get_name (r_node r') = get_name (r_node r) ++ s).
   Proof.
     intros Hs Hwf H. unfold suffix_one in H. rewrite suffix_table in H.
     apply (affix_hist s add_name_suffix (fun v => v ++ s) suffix_skip r r').
@@ -543,10 +545,11 @@ Section Steps.
 
   Lemma hash_one_hist h r r' :
     no_char ","%char h = true -> wf_res r ->
-    hash_one cs nonstr h r = Ok r' -> wf_res r' /\ grows r r'.
+    hash_one cs nonstr h r = Ok r' ->
+    wf_res r' /\ grows r r' /\ (get_name (r_node r') = get_name (r_node r) \/ get_name (r_node r') = get_name (r_node r) ++ "-" ++ h).
   Proof.
     intros Hh Hwf H. unfold hash_one in H.
-    destruct (r_needs_hash r); [|inv H; split; [assumption|apply grows_refl]].
+    destruct (r_needs_hash r); [|inv H; split; [assumption|split; [apply grows_refl|left; reflexivity]]].
     assert (Hnode: r_node (store_previous_id cs r) = r_node r)
       by (rewrite store_previous_id_eq; reflexivity).
     rewrite Hnode in H.
@@ -556,7 +559,7 @@ Section Steps.
     { apply good_app_r; [assumption|]. cbn [append no_char]. rewrite Hh. reflexivity. }
     destruct (set_name_spec _ _ _ Hw Hg Hs) as (W & N1 & N2 & N3 & N4).
     destruct (store_then_update cs r n' (conj Hho Hw) W N2 N3) as [Wr Hr].
-    split; [exact Wr|]. split; [right; eexists; exact Hr|]. split; assumption.
+    split; [exact Wr|]. split; [split; [right; eexists; exact Hr|split; assumption]|]. right. exact N1.
   Qed.
 
   (* ---------- namespace ---------- *)
@@ -575,7 +578,8 @@ Section Steps.
   Lemma meta_namespace_set ns n n1 :
     wf_node n -> good ns = true ->
     fs_apply (Some KScalar) TNone (set_str_entry ns) (mkFs "" "" "" "metadata/namespace" true) n = Ok n1 ->
-    wf_node n1 /\ get_kind n1 = get_kind n /\ get_api_version n1 = get_api_version n.
+    wf_node n1 /\ get_kind n1 = get_kind n /\ get_api_version n1 = get_api_version n /\
+    get_name n1 = get_name n.
   Proof.
     intros (kvs & mkvs & tn & sn & name & kn & E & Hm & Hn & Ht & Hg & Hk & Hkg & Hns) Hgood H.
     subst n. unfold fs_apply in H. rewrite match_any_gvk in H. cbn [fs_path fs_create] in H.
@@ -613,19 +617,23 @@ Section Steps.
     - unfold get_kind, obj_kind, map_field_value. rewrite Hk', Hk. reflexivity.
     - unfold get_api_version, obj_api_version, map_field_value.
       rewrite find_set_first_other by discriminate. reflexivity.
+    - rewrite (wf_node_name _ _ mkvs' tn sn name eq_refl Hm' Hn' Ht).
+      rewrite (wf_node_name _ kvs mkvs tn sn name eq_refl Hm Hn Ht). reflexivity.
   Qed.
 
   Lemma fsslice_ns_inv ns l n n' :
     forallb ns_spec_ok l = true -> good ns = true -> wf_node n ->
     fsslice_apply (Some KScalar) TStr (set_str_entry ns) l n = Ok n' ->
-    wf_node n' /\ get_kind n' = get_kind n /\ get_api_version n' = get_api_version n.
+    wf_node n' /\ get_kind n' = get_kind n /\ get_api_version n' = get_api_version n /\
+    (get_name n' = get_name n \/ get_name n' = ns).
   Proof.
     intros Hl Hgood. revert n. induction l as [|f t IH]; intros n Hw H; cbn [fsslice_apply] in H.
     - inv H. auto.
     - cbn [forallb] in Hl. apply andb_true_iff in Hl as [Hf Ht].
       destruct (fs_apply (Some KScalar) TStr (set_str_entry ns) f n) as [n1| | |] eqn:Hn1;
         cbn [bind] in H; try discriminate.
-      assert (Hstep: wf_node n1 /\ get_kind n1 = get_kind n /\ get_api_version n1 = get_api_version n).
+      assert (Hstep: wf_node n1 /\ get_kind n1 = get_kind n /\ get_api_version n1 = get_api_version n /\
+                     (get_name n1 = get_name n \/ get_name n1 = ns)).
       { unfold fs_apply in Hn1. destruct (is_match_gvk f n); [|inv Hn1; auto].
         unfold ns_spec_ok in Hf. apply orb_true_iff in Hf as [Hf|Hf].
         - apply String.eqb_eq in Hf. rewrite Hf, path_meta_name in Hn1.
@@ -633,7 +641,7 @@ Section Steps.
           subst n. rewrite (fs_filter_meta_name _ _ _ _ kvs mkvs tn sn name Hm Hn Htn) in Hn1.
           unfold set_str_entry in Hn1. rewrite set_scalar_on_name in Hn1 by (auto; discriminate).
           cbn [bind] in Hn1. inv Hn1.
-          destruct (with_meta_name_wf kvs mkvs tn sn name kn TStr ns Hm Hn Hk Hkg Hns) as (W & _ & K & A & _);
+          destruct (with_meta_name_wf kvs mkvs tn sn name kn TStr ns Hm Hn Hk Hkg Hns) as (W & N & K & A & _);
             auto. discriminate.
         - destruct (path_splitter (fs_path f)) as [|p rest]; [discriminate|].
           apply andb_true_iff in Hf as [Hf H3]. apply andb_true_iff in Hf as [Hf H2].
@@ -643,9 +651,10 @@ Section Steps.
           subst n.
           destruct (fs_filter_root_frame _ _ _ _ _ _ _ _ Hp Hn1) as (kvs' & -> & Hfr).
           assert (Hw0: wf_node (Map kvs)) by (exists kvs, mkvs, tn, sn, name, kn; tauto).
-          destruct (wf_node_frame kvs kvs' p Hw0 Hfr H1 H2 H3) as (W & _ & _ & K & A). auto. }
-      destruct Hstep as (W1 & K1 & A1).
-      destruct (IH Ht n1 W1 H) as (W & K & A). repeat split; congruence.
+          destruct (wf_node_frame kvs kvs' p Hw0 Hfr H1 H2 H3) as (W & N & _ & K & A). auto. }
+      destruct Hstep as (W1 & K1 & A1 & N1).
+      destruct (IH Ht n1 W1 H) as (W & K & A & N). repeat split; try congruence.
+      destruct N as [N|N]; [|right; exact N]. rewrite N. exact N1.
   Qed.
 
   Lemma forallb_filter {A} (P f : A -> bool) l : forallb P l = true -> forallb P (filter f l) = true.
@@ -656,31 +665,35 @@ Section Steps.
 
   Lemma ns_filter_wf ns n n' :
     wf_node n -> good ns = true -> ns_filter cs namespace_fs ns n = Ok n' ->
-    wf_node n' /\ get_kind n' = get_kind n /\ get_api_version n' = get_api_version n.
+    wf_node n' /\ get_kind n' = get_kind n /\ get_api_version n' = get_api_version n /\
+    (get_name n' = get_name n \/ get_name n' = ns).
   Proof.
     intros Hw Hgood H. unfold ns_filter in H.
     match type of H with (do n1 <- ?e; _) = _ => destruct e as [n1| | |] eqn:H1 end;
       cbn [bind] in H; try discriminate.
-    assert (Hn1: wf_node n1 /\ get_kind n1 = get_kind n /\ get_api_version n1 = get_api_version n).
+    assert (Hn1: wf_node n1 /\ get_kind n1 = get_kind n /\ get_api_version n1 = get_api_version n /\
+                 get_name n1 = get_name n).
     { destruct (g_cs (cur_gvk cs n)); [inv H1; auto|]. eapply meta_namespace_set; eauto. }
-    destruct Hn1 as (W1 & K1 & A1).
+    destruct Hn1 as (W1 & K1 & A1 & N1).
     match type of H with fsslice_apply _ _ _ ?l _ = _ => assert (Hl: forallb ns_spec_ok l = true) end.
     { destruct (is_role_binding (get_kind n)); repeat apply forallb_filter; exact ns_table_ok. }
-    destruct (fsslice_ns_inv ns _ _ _ Hl Hgood W1 H) as (W & K & A). repeat split; congruence.
+    destruct (fsslice_ns_inv ns _ _ _ Hl Hgood W1 H) as (W & K & A & N).
+    split; [exact W|]. split; [congruence|]. split; [congruence|]. rewrite <- N1. exact N.
   Qed.
 
   Lemma ns_one_hist ns r r' :
     good ns = true -> wf_res r ->
-    ns_one cs namespace_fs ns r = Ok r' -> wf_res r' /\ grows r r'.
+    ns_one cs namespace_fs ns r = Ok r' ->
+    wf_res r' /\ grows r r' /\ (get_name (r_node r') = get_name (r_node r) \/ get_name (r_node r') = ns).
   Proof.
     intros Hgood [Hh Hw] H. unfold ns_one in H.
     assert (Hnode: r_node (store_previous_id cs r) = r_node r)
       by (rewrite store_previous_id_eq; reflexivity).
     rewrite Hnode in H.
     destruct (ns_filter cs namespace_fs ns (r_node r)) as [n'| | |] eqn:Hf; cbn [bind] in H; try discriminate.
-    inv H. destruct (ns_filter_wf _ _ _ Hw Hgood Hf) as (W & K & A).
+    inv H. destruct (ns_filter_wf _ _ _ Hw Hgood Hf) as (W & K & A & N).
     destruct (store_then_update cs r n' (conj Hh Hw) W K A) as [Wr Hr].
-    split; [exact Wr|]. split; [right; eexists; exact Hr|]. split; assumption.
+    split; [exact Wr|]. split; [split; [right; eexists; exact Hr|split; assumption]|]. exact N.
   Qed.
 
   (* ================= any sequence of renaming transformers ================= *)
@@ -713,15 +726,30 @@ Section Steps.
     | st :: t => do r' <- apply_step st r; apply_steps t r'
     end.
 
-  Lemma apply_step_hist st r r' :
-    step_ok st = true -> wf_res r -> apply_step st r = Ok r' -> wf_res r' /\ grows r r'.
+  (* the name a transformer gives, when it renames at all *)
+  Definition step_name (st : rename_step) (n : string) : string :=
+    match st with
+    | SPrefix p => p ++ n
+    | SSuffix s => n ++ s
+    | SNamespace ns => ns          (* only objects of kind Namespace are renamed, to the namespace *)
+    | SHash h => n ++ "-" ++ h
+    end.
+
+  Lemma apply_step_full st r r' :
+    step_ok st = true -> wf_res r -> apply_step st r = Ok r' ->
+    wf_res r' /\ grows r r' /\
+    (get_name (r_node r') = get_name (r_node r) \/ get_name (r_node r') = step_name st (get_name (r_node r))).
   Proof.
-    destruct st; cbn [step_ok apply_step]; intros Hs Hw H.
+    destruct st; cbn [step_ok apply_step step_name]; intros Hs Hw H.
     - eapply prefix_one_hist; eauto.
     - eapply suffix_one_hist; eauto.
     - eapply ns_one_hist; eauto.
     - eapply hash_one_hist; eauto.
   Qed.
+
+  Lemma apply_step_hist st r r' :
+    step_ok st = true -> wf_res r -> apply_step st r = Ok r' -> wf_res r' /\ grows r r'.
+  Proof. intros Hs Hw H. destruct (apply_step_full st r r' Hs Hw H) as (A & B & _). auto. Qed.
 
   (* The history of a resource only grows at its end, whatever renaming transformers run on it;
      kind and apiVersion are never touched. *)
@@ -777,5 +805,60 @@ Section Steps.
     - exists p. auto.
     - exists (id :: rest). split; [assumption|]. right. exists id, rest. split; [reflexivity|].
       unfold id_triple, cur_triple in Hid. now inv Hid.
+  Qed.
+
+  (* ================= every name a resource ever had ================= *)
+
+  (* [v] is a name the resource may have had on its way: the original name, or what some of the
+     transformers (each may or may not rename it: skip lists, needsHash, kind Namespace) make of it *)
+  Fixpoint ever_named (l : list rename_step) (n v : string) : bool :=
+    String.eqb n v ||
+    match l with
+    | [] => false
+    | st :: t => ever_named t n v || ever_named t (step_name st n) v
+    end.
+
+  Definition hist_names (r : resource) : list string := map triple_name (history cs r).
+
+  Lemma ever_named_self l n : ever_named l n n = true.
+  Proof. destruct l; cbn; now rewrite String.eqb_refl. Qed.
+
+  Lemma hist_names_grow r r1 :
+    grows r r1 -> forall v, In v (hist_names r1) -> In v (hist_names r) \/ v = get_name (r_node r1).
+  Proof.
+    intros [[G|(t & G)] _] v Hv; unfold hist_names in *; rewrite G in Hv.
+    - left. assumption.
+    - assert (Et: t = cur_triple cs r1).
+      { unfold history in G at 1. apply app_inj_tail in G as [_ G]. congruence. }
+      rewrite map_app in Hv. apply in_app_or in Hv as [Hv|Hv]; [left; assumption|].
+      cbn in Hv. destruct Hv as [<-|[]]. right. rewrite Et. reflexivity.
+  Qed.
+
+  Theorem history_names l : forall r r',
+    forallb step_ok l = true -> wf_res r -> apply_steps l r = Ok r' ->
+    forall v, In v (hist_names r') -> In v (hist_names r) \/ ever_named l (get_name (r_node r)) v = true.
+  Proof.
+    induction l as [|st t IH]; intros r r' Hl Hw H v Hv; cbn [apply_steps] in H.
+    - inv H. left. assumption.
+    - cbn [forallb] in Hl. apply andb_true_iff in Hl as [Hs Ht].
+      destruct (apply_step st r) as [r1| | |] eqn:H1; cbn [bind] in H; try discriminate.
+      destruct (apply_step_full _ _ _ Hs Hw H1) as (W1 & G1 & N1).
+      cbn [ever_named].
+      destruct (IH r1 r' Ht W1 H v Hv) as [Hin|Hev].
+      + destruct (hist_names_grow _ _ G1 v Hin) as [Hold|Heq]; [left; assumption|]. right.
+        destruct N1 as [N1|N1]; rewrite N1 in Heq; subst v.
+        * now rewrite String.eqb_refl.
+        * rewrite (ever_named_self t). now rewrite !orb_true_r.
+      + right. destruct N1 as [N1|N1]; rewrite N1 in Hev; rewrite Hev; now rewrite ?orb_true_r.
+  Qed.
+
+  (* for a resource that entered the build fresh: every previous name and the current name *)
+  Corollary fresh_names l r r' :
+    forallb step_ok l = true -> wf_res r -> ptriples r = [] -> apply_steps l r = Ok r' ->
+    forall v, In v (hist_names r') -> ever_named l (get_name (r_node r)) v = true.
+  Proof.
+    intros Hl Hw Hf H v Hv. destruct (history_names l r r' Hl Hw H v Hv) as [Hin|Hev]; [|assumption].
+    unfold hist_names, history in Hin. rewrite Hf in Hin. cbn in Hin. destruct Hin as [<-|[]].
+    apply ever_named_self.
   Qed.
 End Steps.
